@@ -35,6 +35,10 @@ def cases(tier, seed, shard, nshards):
     if tier == "thorough" or shard < 3:
         for _b in range(1 if tier == "quick" else 2):
             yield _exec.busy_case(rng, 4500 if tier == "quick" else 9000, p_suspend=0.1)
+    for i in range(max(12, N_MIX[tier] // 8)):
+        # commands that do not fit their pool, half of them flagged force_run: refused, never re-routed or dropped
+        yield _exec.mix_case(rng, 3 * 10 ** 5 + i, steps=40, p_bad=0.2, bad_kinds=["oversell-cpu", "oversell-ram"], p_suspend=0.2,
+                             mem_heavy=False, p_unready=0.0, pools=rng.choice([2, 3, 4]), npipes=rng.randint(4, 10), overcommit=False)
     for i in range(N_MIX[tier]):
         kw = dict(steps=rng.choice([40, 80, 160]), p_bad=rng.choice([0.0, 0.02, 0.04]),
                   bad_kinds=["unknown-pool", "unknown-pool", "unknown-pool", "reassign", "suspend-unknown", "suspend-wrong-pool"],
